@@ -271,10 +271,21 @@ def main():
         if 'file' not in st:
             if not gen_stream(bins[build], st.get('gen', name), n, seed, inp):
                 problems.append(('infra', f'generator {name} failed', '')); continue
-        # corpus first
-        corpus = os.path.join(VERIF, 'corpus', name + '.txt')
+        # corpus first: minimised failing inputs of past (seeded) violations, see /verif/corpus/README
+        corpus = os.path.join(VERIF, 'corpus', name.split(':')[0] + '.txt')
         if os.path.exists(corpus) and 'file' not in st:
-            body = open(inp).read(); open(inp, 'w').write(open(corpus).read() + body)
+            clines = [l for l in open(corpus).read().split('\n') if l]
+            if name.split(':')[0] in ('call', 'rep'):
+                off = '0' if build.startswith('zero') else '1'
+                sel = set(st.get('gen', name).split(':')[1].split(',')) if ':' in st.get('gen', name) else None
+                def keep(l):
+                    t = l.split(' ')
+                    i = 2 if t[0] == 'rep' else 1
+                    try: nm = bytes.fromhex(t[i + 1]).decode()
+                    except Exception: return False
+                    return t[i] == off and (sel is None or nm in sel)
+                clines = [l for l in clines if keep(l)]
+            body = open(inp).read(); open(inp, 'w').write('\n'.join(clines) + ('\n' if clines else '') + body)
         ts = time.time()
         senv = dict(ENV, TZ=st['tz']) if st.get('tz') else ENV
         lines, exp, crashes = run_impl(bins[build], inp, os.path.join(workdir, f'{name}-{build}.exp'), st.get('case_timeout', 10.0), env=senv)
